@@ -2,6 +2,7 @@
    Theorems only; each is closed by [exact] of a lemma of Pure/AcsProofs.v. *)
 From Coq Require Import NArith List Bool.
 From Tinode Require Import Base.Util Pure.Acs Pure.AcsProofs Sys.AcsNotify Sys.AcsNotifyProofs.
+From Tinode Require Import Sys.AcsSitesC05 Sys.AcsSitesC05Proofs.
 Import ListNotations.
 Open Scope N_scope.
 
@@ -160,4 +161,222 @@ Example c05_ex_hist_result :
 Proof. vm_compute. reflexivity. Qed.
 (* the notification of the second change carries no want part and "-P" for given *)
 Example c05_ex_params : notify_params 39 47 39 39 = ([], [cMinus; cP]).
+Proof. reflexivity. Qed.
+
+(* ------------------------------------------------------------------ *)
+(* LAYER 3: the handlers that INTERPRET a client-supplied default-access mode text
+   (Sys/AcsSitesC05.v: replySetDesc/assignAccess on 'me' and group topics, replyOfflineTopicSetSub,
+   initTopicNewGrp, replyCreateUser, initTopicP2P; all on top of parseTopicAccess/UnmarshalText).
+   A text is a [list N]; [] is both "" and an absent JSON key; [None] is an absent defacs object.
+   "not a mode text" = ParseAcs rejects it, which by [c05_site_unknown_letters_not_parsed] covers
+   every text with an unknown letter.  All statements are for ALL texts and ALL current modes. *)
+
+Theorem c05_site_unknown_letters_not_parsed : forall s,
+  forallb known_letter s = false -> parse_acs s = None.
+Proof. exact unknown_not_parsed. Qed.
+Print Assumptions c05_site_unknown_letters_not_parsed.
+
+(* --- {set desc.defacs} on 'me' / a group topic (attached session of the user / the owner) --- *)
+
+(* complete description: the request is answered 400 and nothing moves, or EVERY field holds exactly
+   what its own text says - untouched when the text is empty, absent or not a mode text; the parsed
+   set, sanitised (& ModeCAuth / & ModeCP2P, +A unless N) on 'me' ONLY, when one is supplied -
+   answered 200, or 304 when nothing moved *)
+Theorem c05_setdesc_result : forall cat a n acs,
+  set_desc_defacs cat a n (Some acs) = (400, (a, n)) \/
+  (snd (set_desc_defacs cat a n (Some acs)) =
+     (field_spec (cat_sanitize cat ModeCAuth) a (da_auth acs),
+      field_spec (cat_sanitize cat ModeCP2P) n (da_anon acs)) /\
+   (fst (set_desc_defacs cat a n (Some acs)) = 200 \/
+    fst (set_desc_defacs cat a n (Some acs)) = 304 /\
+    (field_spec (cat_sanitize cat ModeCAuth) a (da_auth acs),
+     field_spec (cat_sanitize cat ModeCP2P) n (da_anon acs)) = (a, n))).
+Proof. exact set_desc_result. Qed.
+Print Assumptions c05_setdesc_result.
+
+(* an empty string means no change: per field, whatever the other field carries, whatever the
+   category, whatever the field holds (sanitised or not) *)
+Theorem c05_setdesc_empty_no_change : forall cat a n acs,
+  (da_auth acs = [] -> fst (snd (set_desc_defacs cat a n (Some acs))) = a) /\
+  (da_anon acs = [] -> snd (snd (set_desc_defacs cat a n (Some acs))) = n) /\
+  (da_auth acs = [] -> da_anon acs = [] -> set_desc_defacs cat a n (Some acs) = (304, (a, n))) /\
+  set_desc_defacs cat a n None = (304, (a, n)).
+Proof.
+  intros cat a n acs. split; [exact (set_desc_empty_auth cat a n acs)|].
+  split; [exact (set_desc_empty_anon cat a n acs)|].
+  split; [exact (set_desc_empty_both cat a n acs)|exact (set_desc_absent cat a n)].
+Qed.
+Print Assumptions c05_setdesc_empty_no_change.
+
+(* text that is not a mode text leaves its target unchanged (always), and is rejected with
+   everything unchanged when it is the anon text or when no anon text comes with it *)
+Theorem c05_setdesc_rejected_keeps_target : forall cat a n acs,
+  (parse_acs (da_auth acs) = None -> fst (snd (set_desc_defacs cat a n (Some acs))) = a) /\
+  (parse_acs (da_anon acs) = None -> set_desc_defacs cat a n (Some acs) = (400, (a, n))).
+Proof.
+  intros cat a n acs. split; [exact (set_desc_rejected_auth_keeps cat a n acs)|exact (set_desc_rejected_anon cat a n acs)].
+Qed.
+Print Assumptions c05_setdesc_rejected_keeps_target.
+
+(* FINDING (findings/C05.md #3): the full statement "rejected, everything unchanged" is REFUTED by
+   the faithful model: parseTopicAccess overwrites the error of auth by the result for anon *)
+Definition c05_setdesc_junk_rejected_statement : Prop := set_desc_junk_rejected_statement.
+Theorem c05_setdesc_junk_rejected_refuted : ~ c05_setdesc_junk_rejected_statement.
+Proof. exact set_desc_junk_rejected_refuted. Qed.
+Print Assumptions c05_setdesc_junk_rejected_refuted.
+(* ... and holds whenever the trigger (a bad auth text hidden by an accepted non-empty anon text) is excluded *)
+Theorem c05_setdesc_junk_rejected_partial : forall cat a n acs,
+  parse_acs (da_auth acs) = None \/ parse_acs (da_anon acs) = None ->
+  (da_anon acs = [] \/ parse_acs (da_anon acs) = None) ->
+  set_desc_defacs cat a n (Some acs) = (400, (a, n)).
+Proof. exact set_desc_junk_rejected_partial. Qed.
+Print Assumptions c05_setdesc_junk_rejected_partial.
+
+(* the category-specific sanitising applies to supplied values (and, by c05_setdesc_empty_no_change,
+   to nothing else) *)
+Theorem c05_setdesc_supplied_sanitised : forall cat a n acs ma mn,
+  da_auth acs <> [] -> da_anon acs <> [] ->
+  parse_acs (da_auth acs) = Some ma -> parse_acs (da_anon acs) = Some mn ->
+  is_owner (N.land ma ModeBitmask) || is_owner (N.land mn ModeBitmask) = false ->
+  snd (set_desc_defacs cat a n (Some acs)) =
+    (cat_sanitize cat ModeCAuth (N.land ma ModeBitmask), cat_sanitize cat ModeCP2P (N.land mn ModeBitmask)).
+Proof. exact set_desc_supplied. Qed.
+Print Assumptions c05_setdesc_supplied_sanitised.
+
+(* the same request from a session that is not attached changes nothing *)
+Theorem c05_offline_setdesc_unchanged : forall a n mode, offline_set_desc_defacs a n mode = (304, (a, n)).
+Proof. exact offline_set_desc_unchanged. Qed.
+Print Assumptions c05_offline_setdesc_unchanged.
+
+(* --- {sub topic=new|nch set.desc.defacs}: the default of the category plays the current value --- *)
+Theorem c05_newgrp_not_supplied_keeps_default : forall ch acs,
+  new_grp_defacs ch None = (default_access_grp true ch, default_access_grp false ch) /\
+  (da_auth acs = [] \/ parse_acs (da_auth acs) = None ->
+     fst (new_grp_defacs ch (Some acs)) = default_access_grp true ch) /\
+  (da_anon acs = [] \/ parse_acs (da_anon acs) = None ->
+     snd (new_grp_defacs ch (Some acs)) = default_access_grp false ch).
+Proof. intros ch acs. split; [exact (new_grp_absent ch)|exact (new_grp_field_keeps ch acs)]. Qed.
+Print Assumptions c05_newgrp_not_supplied_keeps_default.
+
+Theorem c05_newgrp_supplied_taken : forall ch acs ma mn,
+  da_auth acs <> [] -> da_anon acs <> [] ->
+  parse_acs (da_auth acs) = Some ma -> parse_acs (da_anon acs) = Some mn ->
+  is_owner (N.land ma ModeBitmask) || is_owner (N.land mn ModeBitmask) = false ->
+  new_grp_defacs ch (Some acs) = (N.land ma ModeBitmask, N.land mn ModeBitmask).
+Proof. exact new_grp_supplied. Qed.
+Print Assumptions c05_newgrp_supplied_taken.
+
+(* --- {acc user=new desc.defacs} --- *)
+Theorem c05_acc_empty_keeps_default : forall acs,
+  acc_defacs None = (acc_default_auth, acc_default_anon) /\
+  (da_auth acs = [] -> fst (acc_defacs (Some acs)) = acc_default_auth) /\
+  (da_anon acs = [] -> snd (acc_defacs (Some acs)) = acc_default_anon).
+Proof. intros acs. split; [exact acc_absent|exact (acc_empty_keeps acs)]. Qed.
+Print Assumptions c05_acc_empty_keeps_default.
+
+Theorem c05_acc_rejected_anon_keeps_default : forall acs,
+  parse_acs (da_anon acs) = None -> snd (acc_defacs (Some acs)) = acc_default_anon.
+Proof. exact acc_rejected_anon_keeps. Qed.
+Print Assumptions c05_acc_rejected_anon_keeps_default.
+
+(* FINDING (findings/C05.md #4): replyCreateUser ignores the error of UnmarshalText and sanitises the
+   untouched default: a text that is not a mode text turns the default JRWPAS into JRWPA *)
+Definition c05_acc_rejected_auth_keeps_statement : Prop := acc_rejected_auth_keeps_statement.
+Theorem c05_acc_rejected_auth_keeps_refuted : ~ c05_acc_rejected_auth_keeps_statement.
+Proof. exact acc_rejected_auth_keeps_refuted. Qed.
+Print Assumptions c05_acc_rejected_auth_keeps_refuted.
+Theorem c05_acc_rejected_auth_keeps_partial : forall acs,
+  parse_acs (da_auth acs) = None ->
+  fst (acc_defacs (Some acs)) = sanitize_p2p ModeCP2P acc_default_auth.
+Proof. exact acc_rejected_auth_partial. Qed.
+Print Assumptions c05_acc_rejected_auth_keeps_partial.
+
+Theorem c05_acc_supplied_sanitised : forall acs ma mn,
+  da_auth acs <> [] -> da_anon acs <> [] ->
+  parse_acs (da_auth acs) = Some ma -> parse_acs (da_anon acs) = Some mn ->
+  acc_defacs (Some acs) =
+    (sanitize_p2p ModeCP2P (N.land ma ModeBitmask), sanitize_p2p ModeCP2P (N.land mn ModeBitmask)).
+Proof. exact acc_supplied. Qed.
+Print Assumptions c05_acc_supplied_sanitised.
+
+(* --- {sub topic=usrX set.desc.defacs.auth} creating a p2p topic: the permissions given to the peer --- *)
+Theorem c05_p2p_not_supplied_same_as_absent : forall u acs,
+  da_auth acs = [] \/ parse_acs (da_auth acs) = None ->
+  p2p_new_given u (Some acs) = p2p_new_given u None.
+Proof. exact p2p_not_supplied_same. Qed.
+Print Assumptions c05_p2p_not_supplied_same_as_absent.
+
+Theorem c05_p2p_supplied_sanitised : forall u acs m,
+  da_auth acs <> [] -> parse_acs (da_auth acs) = Some m ->
+  p2p_new_given u (Some acs) = N.lor (N.land (N.land m ModeBitmask) ModeCP2P) ModeApprove.
+Proof. exact p2p_supplied. Qed.
+Print Assumptions c05_p2p_supplied_sanitised.
+
+(* non-vacuity / the seeded shape: on 'me' holding JRWPAS/N, {defacs:{anon:"JRW"}} leaves auth alone
+   and stores JRWA for anon; on a group topic the same text is stored as it is; "J!"+"JR" is the
+   refutation witness; the account default after a bad auth text *)
+Example c05_ex_me_anon_only :
+  set_desc_defacs CatMe 63 0 (Some (mkDefacs [] [cJ; cR; cW])) = (200, (63, 23)).
+Proof. reflexivity. Qed.
+Example c05_ex_grp_anon_only :
+  set_desc_defacs CatGrp 47 0 (Some (mkDefacs [] [cJ; cR; cW])) = (200, (47, 7)).
+Proof. reflexivity. Qed.
+Example c05_ex_me_unsanitised_kept :
+  set_desc_defacs CatMe 111 0 (Some (mkDefacs [] [cN])) = (304, (111, 0)).
+Proof. reflexivity. Qed.
+Example c05_ex_junk_auth_hidden :
+  set_desc_defacs CatGrp 47 0 (Some (mkDefacs [cJ; 33] [cJ; cR])) = (200, (47, 3)).
+Proof. reflexivity. Qed.
+Example c05_ex_acc_junk_auth : acc_defacs (Some (mkDefacs [cJ; 33] [])) = (31, 0) /\ acc_defacs None = (63, 0).
+Proof. split; reflexivity. Qed.
+
+(* --- the mode text of an EXISTING subscription: {set sub.mode} / {sub set.sub.mode} on a group or
+   p2p topic (thisUserSub: the user's own want; anotherUserSub: the given set by an administrator /
+   the p2p peer; replyOfflineTopicSetSub: own want from a session that is not attached).
+   [ss_modes w g r] = the (want, given) the subscription holds after outcome r --- *)
+
+(* an empty text changes neither want nor given (own want: for a subscription that has not banned
+   itself; there the empty text means "default" by design, see c05_ex_unselfban) *)
+Theorem c05_subtext_empty_no_change : forall cat af w g,
+  (forall owner, is_joiner w = true ->
+     ss_modes w g (this_user_sub_existing cat owner af w g []) = Some (w, g)) /\
+  (forall hm ho to, ss_modes w g (another_user_sub_existing cat hm ho to w g []) = Some (w, g)) /\
+  offline_set_sub cat w g [] = SsDone 304 w g.
+Proof.
+  intros cat af w g. split; [|split].
+  - intros owner Hj. rewrite (this_empty_no_change cat owner af w g Hj). reflexivity.
+  - intros hm ho to. rewrite (another_empty_no_change cat hm ho to w g). destruct (is_sharer hm); reflexivity.
+  - exact (offline_sub_empty cat w g).
+Qed.
+Print Assumptions c05_subtext_empty_no_change.
+
+(* text that is not a mode text is rejected with an error reply and nothing is written *)
+Theorem c05_subtext_rejected_unchanged : forall cat af w g s, parse_acs s = None ->
+  (forall owner, this_user_sub_existing cat owner af w g s = SsErr 400) /\
+  (forall hm ho to, another_user_sub_existing cat hm ho to w g s = SsErr 400 \/
+                    another_user_sub_existing cat hm ho to w g s = SsErr 403) /\
+  offline_set_sub cat w g s = SsErr 500.
+Proof.
+  intros cat af w g s H. split; [|split].
+  - intros owner. exact (this_rejected cat owner af w g s H).
+  - intros hm ho to. rewrite (another_rejected cat hm ho to w g s H). destruct (is_sharer hm); [left|right]; reflexivity.
+  - exact (offline_sub_rejected cat w g s H).
+Qed.
+Print Assumptions c05_subtext_rejected_unchanged.
+
+(* the p2p sanitising (& ModeCP2P, +A) of the given applies to a supplied set (and by
+   c05_subtext_empty_no_change to nothing else) *)
+Theorem c05_subtext_p2p_supplied_sanitised : forall hm ho w g s m,
+  s <> [] -> parse_acs s = Some m -> is_admin hm = true ->
+  another_user_sub_existing SP2P hm ho false w g s =
+    (let g' := N.lor (N.land (N.land m ModeBitmask) ModeCP2P) ModeApprove in
+     if g' =? g then SsDone 304 w g else SsDone 200 w g').
+Proof. exact another_p2p_supplied. Qed.
+Print Assumptions c05_subtext_p2p_supplied_sanitised.
+
+Example c05_ex_sub_empty : this_user_sub_existing SP2P false 0 23 95 [] = SsDone 304 23 95.
+Proof. reflexivity. Qed.
+Example c05_ex_unselfban : this_user_sub_existing SGrp false 47 46 47 [] = SsDone 200 47 47.
+Proof. reflexivity. Qed.
+Example c05_ex_peer_given : another_user_sub_existing SP2P 31 false false 31 31 [cJ; cR; cW; cD] = SsDone 200 31 23.
 Proof. reflexivity. Qed.
